@@ -435,7 +435,7 @@ func main() {
 		for _, k := range strings.Fields(`extractRoles getAccessClaims getTenantFromToken checkTenantMatchesTenantList checkGroupOverage addGraphGroupsToSession
 			redeemRefreshToken validateToken makeOIDCHeader makeAuthorizationHeader getEmail getUser getOrgAndTeam hasOrgAndTeamAccess hasRepoAccess hasUser
 			getUserInfo getProjectInfo setProjectGroups populateSessionFromToken userInGroup fetchGroupMembership getAdminService setAllowedGroups
-			fetchPrivateKeyJWT redeemFederatedToken UnmarshalInto UnmarshalSimpleJSON Do WithContext SetHeader WithMethod WithBody Errorf Error New`) {
+			fetchPrivateKeyJWT redeemFederatedToken action WaitForReplacement filterEvent Add Remove Stat Sleep NewWatcher Clean UnmarshalInto UnmarshalSimpleJSON Do WithContext SetHeader WithMethod WithBody Errorf Error New`) {
 			pk[k] = true
 		}
 		groups := map[string][]string{
@@ -480,7 +480,7 @@ func main() {
 			emit("def %s : List String := %s\n", g, lstrsNL(lines))
 		}
 		// PKCE / provider-data wiring
-		for _, s := range []sk{{"oauthproxy.go", "NewOAuthProxy"}, {"providers/internal_util.go", "validateToken"}, {"providers/provider_default.go", "ProviderData.Redeem"}, {"providers/providers.go", "newProviderDataFromConfig"}, {"providers/providers.go", "parseCodeChallengeMethod"}, {"providers/provider_data.go", "ProviderData.LoginURLParams"},
+		for _, s := range []sk{{"pkg/watcher/watcher.go", "WatchFileForUpdates"}, {"pkg/watcher/watcher.go", "filterEvent"}, {"pkg/watcher/watcher.go", "WaitForReplacement"}, {"oauthproxy.go", "NewOAuthProxy"}, {"providers/internal_util.go", "validateToken"}, {"providers/provider_default.go", "ProviderData.Redeem"}, {"providers/providers.go", "newProviderDataFromConfig"}, {"providers/providers.go", "parseCodeChallengeMethod"}, {"providers/provider_data.go", "ProviderData.LoginURLParams"},
 			{"providers/provider_default.go", "ProviderData.GetLoginURL"}, {"providers/oidc.go", "OIDCProvider.GetLoginURL"}, {"oauthproxy.go", "decodeState"}, {"oauthproxy.go", "encodeState"},
 			{"pkg/providers/oidc/provider_verifier.go", "ProviderVerifierOptions.toOIDCConfig"}, {"pkg/providers/oidc/provider_verifier.go", "ProviderVerifierOptions.toVerificationOptions"}, {"pkg/providers/oidc/provider_verifier.go", "NewProviderVerifier"},
 			{"pkg/util/util.go", "IsEndpointAllowed"}, {"pkg/util/util.go", "isHostnameAllowed"}, {"pkg/app/redirect/director.go", "appDirector.hasProxyPrefix"}, {"pkg/app/redirect/director.go", "appDirector.validateRedirect"}} {
